@@ -90,6 +90,7 @@ struct Ctx {
     QPointer<Socket> sock;
     QStringList *obs = nullptr;
     QMap<QString, QStringList> react;
+    bool hpSeen = false;       // accessors are meaningful only once headersParsed() was emitted
 };
 
 void apiOp(Ctx &c, const QString &tok)
@@ -110,6 +111,10 @@ void apiOp(Ctx &c, const QString &tok)
         for (auto i = qs.constBegin(); i != qs.constEnd(); ++i) {
             q << hx(i.key().toUtf8()) + "=" + hx(i.value().toUtf8());
         }
+        if (!c.hpSeen) {
+            // nothing was parsed (or parsing failed part-way): the accessors expose no request
+            c.obs->append(QString("snap:%1:0:-:-:-:-:%2").arg(s->isHeadersParsed() ? 1 : 0).arg(s->contentLength()));
+        } else
         c.obs->append(QString("snap:%1:%2:%3:%4:%5:%6:%7")
             .arg(s->isHeadersParsed() ? 1 : 0)
             .arg(s->isHeadersParsed() ? int(s->method()) : 0)
@@ -216,7 +221,7 @@ void runSock(const Scn &scn, Out &out)
             c.sock = s;
             sockCreated = true;
             Ctx *pc = &c;
-            QObject::connect(s, &Socket::headersParsed, [pc]() { pc->obs->append("hp"); react(*pc, "hp"); });
+            QObject::connect(s, &Socket::headersParsed, [pc]() { pc->hpSeen = true; pc->obs->append("hp"); react(*pc, "hp"); });
             QObject::connect(s, &Socket::readyRead, [pc]() { pc->obs->append("rr"); react(*pc, "rr"); });
             QObject::connect(s, &Socket::readChannelFinished, [pc]() { pc->obs->append("rcf"); react(*pc, "rcf"); });
             QObject::connect(s, &Socket::bytesWritten, [pc](qint64 n) { pc->obs->append("bw:" + QString::number(n)); react(*pc, "bw"); });
